@@ -14,6 +14,7 @@ pub fn run(entry: &str, v: &Value) -> Option<Result<String, String>> {
         "async_client_small_frames_abandoned" => rt2(async_client_small_frames_abandoned()),
         "svs_cancel_during_next" => svs_cancel_during_next(),
         "svs_producer_panic" => svs_producer_panic(),
+        "svs_stale_id_after_later_open" => svs_stale_id_after_later_open(),
         "svs_failed_commit_keeps_destination" => svs_failed_commit_keeps_destination(),
         "svs_early_stop_releases" => svs_early_stop_releases(),
         "svs_depths_and_slow_consumer" => svs_depths_and_slow_consumer(),
@@ -832,6 +833,71 @@ async fn offreader_reject_with_full_queue() -> Result<String, String> {
     drop(client);
     let _ = tokio::time::timeout(Duration::from_secs(5), server).await;
     res
+}
+
+// ---------------------------------------------------------------------------------------------
+// C09 (multi-step history): pulling past the end of a finished stream stays an error after a LATER stream was opened on the
+// same producer, and that later stream's consumer still gets exactly its own bytes, ending once.
+fn svs_stale_id_after_later_open() -> Result<String, String> {
+    use repe::value_stream::{Compression, RouterValueStreamExt, StreamOpts};
+    #[derive(serde::Serialize)]
+    struct OpenReq { resource: String }
+    #[derive(serde::Deserialize)]
+    struct OpenResp { #[allow(dead_code)] version: u8, stream_id: u64, #[allow(dead_code)] format: u16, #[allow(dead_code)] compression: u8 }
+    #[derive(serde::Serialize)]
+    struct NextReq { stream_id: u64 }
+    fn open(c: &repe::Client, resource: &str) -> Result<u64, String> {
+        let body = beve::to_vec(&OpenReq { resource: resource.to_string() }).map_err(|e| e.to_string())?;
+        let r = c.call_with_formats("/_svs/open", repe::QueryFormat::JsonPointer as u16, Some(&body), repe::BodyFormat::Beve as u16).map_err(|e| format!("open: {e}"))?;
+        let o: OpenResp = beve::from_slice(&r.body).map_err(|e| format!("open response: {e}"))?;
+        Ok(o.stream_id)
+    }
+    fn next(c: &repe::Client, id: u64) -> Result<(Vec<u8>, bool), String> {
+        let body = beve::to_vec(&NextReq { stream_id: id }).map_err(|e| e.to_string())?;
+        match c.call_with_formats("/_svs/next", repe::QueryFormat::JsonPointer as u16, Some(&body), repe::BodyFormat::Beve as u16) {
+            Ok(r) => Ok((r.body.clone(), r.query.first().copied() == Some(1))),
+            Err(e) => Err(e.to_string()),
+        }
+    }
+    let router = repe::Router::new().with_reader_stream(
+        |resource: &str| match resource {
+            "a" => Some(std::io::Cursor::new(vec![0xAAu8; 4])),
+            "b" => Some(std::io::Cursor::new((0u8..12).collect::<Vec<u8>>())),
+            _ => None,
+        },
+        StreamOpts { chunk_bytes: 4, compression: Compression::None, zstd_level: 3, session_depth: 2 },
+    );
+    let server = repe::Server::new(router);
+    let listener = server.listen("127.0.0.1:0").expect("bind");
+    let addr = listener.local_addr().expect("addr");
+    std::thread::spawn(move || {
+        let _ = server.serve(listener);
+    });
+    let client = repe::Client::connect(addr).expect("connect");
+    let mut rounds = 0;
+    for _ in 0..3 {
+        let a = open(&client, "a")?;
+        let (chunk, last) = next(&client, a).map_err(|e| format!("stream A: {e}"))?;
+        if chunk != vec![0xAAu8; 4] || !last {
+            return Ok(format!("inconclusive: the 4-byte stream did not arrive as one final chunk ({} bytes, last={last})", chunk.len()));
+        }
+        let b = open(&client, "b")?;
+        if let Ok((chunk, last)) = next(&client, a) {
+            return Err(format!("stream {a} was pulled to its end marker, then stream {b} was opened; a further pull on the finished stream {a} returned a chunk ({} bytes, last={last}) instead of an error", chunk.len()));
+        }
+        let mut got = Vec::new();
+        let mut ends = 0;
+        for _ in 0..4 {
+            let (chunk, last) = next(&client, b).map_err(|e| format!("the later stream {b} failed after a stale pull on {a}: {e}"))?;
+            got.extend_from_slice(&chunk);
+            if last { ends += 1; break; }
+        }
+        if got != (0u8..12).collect::<Vec<u8>>() || ends != 1 {
+            return Err(format!("the later stream's consumer received {} of 12 bytes and {ends} end markers after a stale pull on an earlier stream", got.len()));
+        }
+        rounds += 1;
+    }
+    Ok(format!("{rounds} finish / open / stale-pull histories held"))
 }
 
 // ---------------------------------------------------------------------------------------------
